@@ -74,10 +74,16 @@ func cells(thorough bool) []Cell {
 			}
 		}
 	}
-	lv := []float64{0, 1, 2, 5, 10}
+	// rates whose period is not a whole number of nanoseconds, many tokens (rounding must not accumulate)
+	for _, r := range []float64{300, 7000, 30000} {
+		for _, d := range []string{"1s", "2.5s", "10s"} {
+			out = append(out, Cell{Type: "const", From: r, Duration: d})
+		}
+	}
+	lv := []float64{0, 0.5, 1, 1.5, 2, 3.2, 5, 10}
 	steps := []int64{1, 2, 5}
 	if thorough {
-		lv = []float64{0, 0.5, 1, 2, 5, 10, 25}
+		lv = []float64{0, 0.5, 1, 1.5, 2, 3.2, 5, 9.9, 10, 25}
 		steps = []int64{1, 2, 3, 5, 7}
 	}
 	for _, f := range lv {
